@@ -137,10 +137,23 @@ def c06(tier, seed):
 
 def c08(tier, seed):
     c = Check("C08", tier, seed)
-    c.rule = "MC: generic driver over all subsets of a 6-bit feature projection (negotiation is bit-wise, checked as an ASSUME), negative configurations (DRIVER_OK before queues, accepting unsupported bits) must be refused; traces: all 11 drivers x {no features, all ones, each single bit 0..63, random sets} x legacy/modern on the model transport: ordered transport calls validated against Lifecycle.tla, every queue's trace validated against VirtQueue.tla with the negotiated indirect/event-idx/access-platform bits"
+    c.rule = "MC: generic driver over all subsets of a 6-bit feature projection (negotiation is bit-wise, checked as an ASSUME), negative configurations (DRIVER_OK before queues, accepting unsupported bits) must be refused; traces: all 11 drivers x {no features, all ones, each single bit 0..63, random sets} x legacy/modern on the model transport: ordered transport calls validated against Lifecycle.tla, every queue's trace validated against VirtQueue.tla with the negotiated indirect/event-idx/access-platform bits; usage: the block, console, network (raw+buffered), socket, input, sound-event, entropy, clock, 9P, GPU and sound drivers exercised on all transports under feature sets offering none / one / both of INDIRECT_DESC and EVENT_IDX, queue traces validated with the negotiated bits"
     c.assumptions = ["Supported(dev) in Lifecycle.tla is the documented supported set of each driver", "device-specific feature-gated requests are decided by the device specs (C14-C20)"]
     mc(c, ["Life_q3_modern", "Life_q2_legacy"], tier, module="LifecycleMC", negative=["Life_bug_early_ok", "Life_bug_accept_all"])
     life_family(c, tier, seed, "queues")
+    # "thereafter": every driver is used (device families of C14-C20) under feature sets offering
+    # none / exactly one / both of INDIRECT_DESC and EVENT_IDX; what the reference device sees in
+    # each queue is validated with the *negotiated* bits as the queue's configuration
+    for fam, extra in (("blk", ()), ("console", ()), ("net", ()), ("vsock", ()), ("evq", ()), ("cmd", ())):
+        out = os.path.join(WORK, c.pid, f"use-{fam}.ndjson")
+        idx = run_harness(fam, out, seed + 3, tier, list(extra))
+        qv = validate_traces("VirtQueueTrace", "VirtQueueTrace.cfg", out + ".q.ndjson", {"scenarios": []})
+        qv["scenarios"] = len(idx["scenarios"])
+        c.add_validation(qv, "use-" + fam + "/queues")
+        if not c.violations:
+            for f in (out, out + ".q.ndjson"):
+                if os.path.exists(f):
+                    os.remove(f)
     return c.finish()
 
 
